@@ -96,6 +96,36 @@ def run_cycle(b: Batch, r, led, kind="inotify"):
 ERRNOS = [errno.ENOENT, errno.ENOSPC, errno.EMFILE, errno.EACCES]
 
 
+def run_long_lived(b: Batch, r, led, rounds=60):
+    """ONE running observer over many schedule / event / unschedule rounds (also failing schedules): after every round the
+    descriptor ledger and the thread count are back at the level of the idle observer - nothing accumulates."""
+    c = apireal.Case("inotify", led, tree_dirs=2)
+    c.call("start")
+    base_threads = None
+    for i in range(rounds):
+        if b.expired() or c.hung:
+            break
+        what = r.choice(["p1", "p2", "p2", "missing", "file"])
+        rec = c.call("schedule", what)
+        if rec["status"] == "ok":
+            if r.random() < 0.5:
+                c.call("touch", "p2" if what == "p2" else "p1")
+            if r.random() < 0.3:
+                c.call("schedule", what)  # a second handler-less schedule of an equal watch shares the emitter
+            c.call("unschedule", what)
+        lib = [t for t in threading.enumerate() if t not in c.threads0 and apireal.is_library_thread(t) and t is not c.obs]
+        left = monitors.wait_threads_gone(lib, grace=1.0)
+        fds = led.open_fds()
+        b.count("long_lived_round_audits")
+        if left or fds:
+            b.violation("resources-accumulate-over-cycles", f"round {i} of one long-lived observer: after unschedule() the observer still holds threads {[monitors.thread_desc(t) for t in left]} / descriptors {dict((fd, x['kind']) for fd, x in fds.items())}",
+                        witness={"round": i, "log": c.log[-8:]})
+            break
+    out = c.finish()
+    judge(b, out, c.log[-10:], {"long_lived": True}, None)
+    b.nontrivial(["long-lived", rounds, r.random()])
+
+
 def run_injection(b: Batch, led, ndirs, where, k, en, running):
     """Failure at inotify_init (where='init') or at the k-th inotify_add_watch while a watch on a tree of ndirs directories is built."""
     c = apireal.Case("inotify", led, tree_dirs=ndirs - 1)
@@ -223,6 +253,7 @@ def plan(tier, seed, jobs):
             specs.append({"kind": "cycles", "n": 300, "seed": seed, "j": j, "budget_s": 45})
         for nd in range(1, 5):
             specs.append({"kind": "inject", "ndirs": nd, "budget_s": 60})
+        specs.append({"kind": "longlived", "n": 3, "rounds": 60, "seed": seed, "budget_s": 60})
         for j in range(6):
             specs.append({"kind": "holds", "seed": seed, "j": j, "of": 6, "budget_s": 60})
         specs.append({"kind": "strace"})
@@ -231,6 +262,8 @@ def plan(tier, seed, jobs):
             specs.append({"kind": "cycles", "n": 6000, "seed": seed, "j": j, "budget_s": 800})
         for nd in range(1, 7):
             specs.append({"kind": "inject", "ndirs": nd, "budget_s": 600})
+        for j in range(4):
+            specs.append({"kind": "longlived", "n": 10, "rounds": 400, "seed": seed + j, "budget_s": 800})
         for j in range(jobs):
             specs.append({"kind": "holds", "seed": seed, "j": j, "of": jobs, "budget_s": 900, "reps": 10})
         specs.append({"kind": "strace"})
@@ -252,6 +285,12 @@ def run_batch(spec):
                 break
             run_cycle(b, r, led)
         pass
+    elif k == "longlived":
+        r = rng_for(spec["seed"], "C12L")
+        for n in range(spec["n"]):
+            if b.expired():
+                break
+            run_long_lived(b, r, led, spec["rounds"])
     elif k == "inject":
         nd = spec["ndirs"]
         for running in (True, False):
